@@ -51,6 +51,10 @@ def _setup():
     from xonsh.commands_cache import CommandsCache
 
     _CC = CommandsCache
+    import gc
+
+    gc.collect()
+    gc.freeze()  # pysched collects before every execution: keep the loaded session out of that walk
 
 
 def _traced():
@@ -183,7 +187,7 @@ def run_part(ctx):
     per = {}
     for name in names:
         _PROG = name
-        viols, st = pysched.explore(_body, _check, traced, bound, ctx, setup=_setup, max_execs_per_shard=ctx.pick(20000, 400000), budget_s=ctx.pick(25, 240))
+        viols, st = pysched.explore(_body, _check, traced, bound, ctx, setup=_setup, max_execs_per_shard=ctx.pick(20000, 400000), budget_s=ctx.pick(25, 120))
         ctx.add_violations(viols)
         total["executions"] += st.executions
         total["steps"] += st.steps
